@@ -13,7 +13,8 @@ TFilter == Is("filter") /\ ~c.plain /\ Filter(Ev.same) /\ Adv
 \* plain PoisonQueue has no user filter to observe: its (always accepting) filter step is silent
 TSilentFilter == c.plain /\ Filter(TRUE) /\ UNCHANGED l
 TPCall == Is("pcall") /\ PCall(Ev.topic, Ev.uuid, Ev.payload, Ev.meta) /\ Adv
-TRet == Is("ret") /\ Return(Ev.r) /\ Adv
+\* outs (stand-alone use): the middleware touches the error only -- the messages the handler returned come back as they were
+TRet == Is("ret") /\ Return(Ev.r) /\ (Has("outs") => Ev.outs = c.houts) /\ Adv
 TSettled == Is("settled") /\ Settle(Ev.kind) /\ Adv
 TEnd == Is("end") /\ phase = "returned" /\ (c.inRouter => settled # "none") /\ UNCHANGED pvars /\ Adv
 TNext == TReset \/ THCall \/ TFilter \/ TSilentFilter \/ TPCall \/ TRet \/ TSettled \/ TEnd
